@@ -74,6 +74,37 @@ def scoped(rule, root_pred, what):
     return R(run)
 
 
+def advisory(rule):
+    """a differencing rule kept for information only: what it reports goes into the evidence notes, never into the verdict
+    (two sibling implementations may legitimately be written differently; the absolute rules decide)"""
+    def run(cfg, rule=rule):
+        r = rule['fn'](cfg)
+        for x in r.findings[:6]:
+            r.note('advisory (%s, not a verdict): %s' % (r.rule, x.line()[:300]))
+        for x in r.incomplete[:3]:
+            r.note('advisory (%s): %s' % (r.rule, x[:200]))
+        r.discharged = r.obligations
+        r.findings = []
+        r.incomplete = []
+        r.rule = r.rule + ' (advisory)'
+        return r
+    return R(run)
+
+
+def lock2_obsoleting(cfg):
+    """LOCK-2 for C14: an unguarded store into a parent slot in a function that obsoletes a node - the late store can miss the
+    slot, leaving the obsolete node linked for ever"""
+    from . import effectflow
+    r = olcrules.rule(cfg, 'LOCK-2')
+    an = effectflow.Effects(cfg, obsolete_only=True)
+    obs = {f.sig for f in cfg.functions if f.blocks and 'olc' in f.sig and an.summary(f).effect_any}
+    kept = [x for x in r.findings if x.fn_sig in obs]
+    if len(kept) != len(r.findings):
+        r.note('%d LOCK-2 finding(s) in functions that obsolete nothing are C03\'s business, not reported here' % (len(r.findings) - len(kept)))
+    r.findings = kept
+    return r
+
+
 def _olc_point_roots(m):
     s = m.get('sig', '')
     return s.startswith('unodb::olc_db<') and '::iterator' not in s and any(('::%s(' % n) in s for n in ('get_internal', 'insert_internal', 'remove_internal', 'try_get', 'try_insert', 'try_remove', 'get', 'insert', 'remove'))
@@ -91,7 +122,7 @@ PROPERTIES['C01'] = {
     'level': 'other',
     'configs': two,
     'rules': [R(point.noeff1), R(point.keyeq1), R(point.leaf1), R(point.leaf2), R(point.leaf3), R(point.root1), R(point.split1), R(point.pair1), R(point.copy1), R(point.desc1), R(find.find1), R(find.ord1), R(slot.slot1), R(prefix.pfx1), R(prefix.pfx2),
-              R(lambda cfg: iterrules.sib1_point(cfg, accounting=False)), R(lambda cfg: olcrules.lock6(cfg, kinds=('leaf',)))],
+              advisory(R(lambda cfg: iterrules.sib1_point(cfg, accounting=False))), R(lambda cfg: olcrules.lock6(cfg, kinds=('leaf',)))],
     'technique': 'static analysis: path-sensitive effect flow with callee summaries (result/effect correlation), control-dependence rules (full-key comparison guards), writer/reader expression agreement, abstract interpretation of the node search and key-prefix arithmetic in byte-vector / lane-wise three-valued domains with exhaustively enumerated lengths and counts, sibling differencing db vs olc_db',
     'explanation': 'The local generators of "point operations behave as a map", decided on the clang-instantiated code of all three index classes and both key kinds; the behaviour over all histories is NOT decided (see does_not_decide). '
                    'NOEFF-1 on every path insert / remove return false (or request a restart) only if nothing was stored into the tree and return true only if something was; get / empty never store. '
@@ -102,21 +133,21 @@ PROPERTIES['C01'] = {
                    'DESC-1 the descent of get / insert / remove / seek compares each node prefix with the shifted working copy of the key, shifts it by the prefix length, selects the child by its first byte and shifts by one, in this order, the tracked depth moving in step; COPY-1 the grow / shrink initialisers walk the slot arrays of their source node from slot 0 to the array size; '
                    'SPLIT-1 node splits dispatch on the bytes at the split position (leaf split: k1[depth+L] / shifted_k2[L]; prefix split: prefix[len] read before the cut by len+1, key[depth+len]); CAP-1 / CAP-2 the interval obligations "longest common prefix of two distinct keys <= key_prefix_capacity" at the leaf split and "merged prefix <= capacity" at the collapse hold for 64-bit keys and FAIL for byte-string keys - two genuine defects of the pinned tree, listed in known_findings.json and printed as KNOWN-FINDING (replays triage/d1_long_prefix.cpp, triage/d1b_collapse_overflow.cpp). '
                    'PFX-1 key_prefix::cut / prepend are the specified byte permutations for every combination of lengths and every content of the stale bytes; PFX-2 shared_len is min(first differing byte, clamp). '
-                   'SIB-1p db and olc_db take the same algorithmic decisions (child lookup, prefix comparison, key shifts, leaf match, node creation by class, helper calls; statistics events projected away - they are C10) on every path of get / insert / remove and of the add / remove helpers of every node class.',
+                   'SIB-1p (ADVISORY only - differencing two sibling implementations fires on a behaviour-preserving rewrite of one of them, so its reports go into the evidence notes and never into the verdict; the absolute rules above decide) db and olc_db take the same algorithmic decisions (child lookup, prefix comparison, key shifts, leaf match, node creation by class, helper calls; statistics events projected away - they are C10) on every path of get / insert / remove and of the add / remove helpers of every node class.',
     'decides': 'result/effect correlation; full-key-comparison guards; leaf layout agreement and immutability; per-node lookup, insert position and slot pairing; split dispatch bytes; key-prefix arithmetic; db/olc_db algorithm agreement',
     'does_not_decide': 'the map behaviour as a theorem over all operation histories and key sets (that needs an inductive tree invariant - functional verification, outside static analysis); the iterator-style copy loops of the I4-from-I16 shrink beyond PAIR-1',
 }
 PROPERTIES['C02'] = {
     'level': 'other',
     'configs': two,
-    'rules': [R(seq.cmp1), R(enc.cmp_shape), R(seq.cmp3), R(seq.iter1), R(enum1.enum1), R(iterrules.iter2), R(iterrules.iter3), R(iterrules.iter4), R(iterrules.iter5), R(iterrules.sib1)],
+    'rules': [R(seq.cmp1), R(enc.cmp_shape), R(seq.cmp3), R(seq.iter1), R(enum1.enum1), R(iterrules.iter2), R(iterrules.iter3), R(iterrules.iter4), R(iterrules.iter5), R(lambda cfg: point.desc1(cfg, which='seek')), advisory(R(iterrules.sib1))],
     'technique': 'static analysis: forward dataflow over event-CFGs (comparator operands, sibling-step consistency), scan-descriptor extraction per node-class enumeration method compared with a semantics table, must-pass-through rule for the fall-off branch of seek, path-class differencing of the db and olc_db iterators',
     'explanation': 'Static necessary conditions of "scans visit exactly the interval, in order", decided on the clang-instantiated code of db, mutex_db and olc_db for both key kinds: '
                    'CMP-1 every byte comparator is applied to key bytes, never to the object representation of a pointer-carrying object; CMP-2 detail::compare is memcmp over the common length, then shorter-first on a tie (evaluated for all sign / length cases); CMP-3 every three-way key comparison (art_key / leaf / iterator cmp) takes its result from the byte-wise comparator or another cmp, never from relational operators on the byte-swapped key word; '
                    'ITER-1 when an iterator function computes a sibling with next/prior/gte_key_byte/lte_key_byte and the answer holds a value, the child it descends into is the one the answer names; '
                    'ENUM-1 each of the 96 per-node enumeration methods (begin/last/next/prior/gte_key_byte/lte_key_byte x 4 node classes x instantiations) is summarised by a scan descriptor (start, direction, bound, predicate, returned slot) and compared with the ART semantics table; '
                    'ITER-2 the scan drivers position with first / seek(fwd) resp. last / seek(rev), step with next resp. prior, stop at cmp(to) < 0 resp. > 0 (from inclusive, to exclusive), call the visitor once per entry and halt when it asks; '
-                   'ITER-3 when seek falls off an inner node (no child at/after resp. at/before the key byte) the first stack operation is the sibling step on the parent entry, never a pop; ITER-4 direction table: forward functions use forward primitives only and vice versa, and in seek every primitive sits under the direction flag and comparison sign the table demands (an opposite-direction descent is followed by a step in the seek direction); ITER-5 net stack effect of the step functions (replace the parent entry before a descent, remove exactly one entry otherwise); SIB-1 the db and olc_db iterators make the same algorithmic decisions once lock events are projected away.',
+                   'ITER-3 when seek falls off an inner node (no child at/after resp. at/before the key byte) the first stack operation is the sibling step on the parent entry, never a pop; ITER-4 direction table: forward functions use forward primitives only and vice versa, and in seek every primitive sits under the direction flag and comparison sign the table demands (an opposite-direction descent is followed by a step in the seek direction); ITER-5 net stack effect of the step functions (replace the parent entry before a descent, remove exactly one entry otherwise); DESC-1 (seek) the descent of seek consumes the key consistently; SIB-1 (ADVISORY only, evidence notes, never the verdict) the db and olc_db iterators make the same algorithmic decisions once lock events are projected away.',
     'decides': 'address independence of comparisons; sibling-step consistency; per-node ordered enumeration; bound handling of the scan drivers; seek fall-off; db/olc agreement',
     'does_not_decide': 'completeness of seek\'s case analysis for every tree shape and bound as a theorem; delivered key lists as values',
 }
@@ -188,10 +219,10 @@ PROPERTIES['C09'] = {
 PROPERTIES['C14'] = {
     'level': 'other',
     'configs': two,
-    'rules': [olc('LOCK-3'), olc('LOCK-4'), olc('LOCK-7'), R(point.lock10)],
+    'rules': [olc('LOCK-3'), olc('LOCK-4'), olc('LOCK-7'), R(point.lock10), R(lock2_obsoleting)],
     'technique': 'static analysis: relational typestate dataflow for lock order / no-wait-while-locked / guard typestate on every CFG path incl. exceptional exits of scope guards; path-sensitive effect flow (obsoletion followed by a restart result)',
     'explanation': 'No-deadlock / no-lock-left-held conditions: LOCK-3 (write ownership is only taken by non-blocking upgrade in root-to-leaf order and no waiting primitive - try_read_lock spin, spin_wait_loop_body - is reached while a guard is active, '
-                   'so no wait-for cycle can contain a writer and readers hold nothing), LOCK-4 (no operation on a guard that is not active: no double unlock / null dereference; guards are scope-bound RAII objects), LOCK-7b (sections are not validated after they ended), LOCK-10 (obsoletion is a point of no return: no path marks a node obsolete and then abandons the attempt with a restart result while the node is still linked - otherwise every later operation reaching that node restarts for ever although nobody holds a lock; path-sensitive effect flow with callee summaries).',
+                   'so no wait-for cycle can contain a writer and readers hold nothing), LOCK-4 (no operation on a guard that is not active: no double unlock / null dereference; guards are scope-bound RAII objects), LOCK-7b (sections are not validated after they ended), LOCK-10 (obsoletion is a point of no return: no path marks a node obsolete and then abandons the attempt with a restart result while the node is still linked - otherwise every later operation reaching that node restarts for ever although nobody holds a lock; path-sensitive effect flow with callee summaries), LOCK-2 restricted to functions that obsolete a node (the store that replaces / unlinks the obsoleted node in its parent is made under the active write guard of the parent: a store after the guard is gone can hit a slot that has moved, and the obsolete node stays linked).',
     'decides': 'lock acquisition order, no-wait-while-locked, guard typestate, no restart after obsoletion',
     'does_not_decide': 'freedom from starvation / livelock (the lock header itself says readers can starve)',
 }
